@@ -212,33 +212,91 @@ const UNARY32: [(&str, &str, Imp, Ref); 17] = [
     ("to_p8", "f", |p| softposit::P8E0::from(p).to_bits() as u64, |v| softposit::P8E0::from_f64(v).to_bits() as u64),
     ("recip", "m", |p| num_traits::Float::recip(p).to_bits() as u64, |v| p32b(1.0 / v)),
     ("abs", "m", |p| p.abs().to_bits() as u64, |v| p32b(v.abs())),
-    ("neg", "m", |p| (-p).to_bits() as u64, |v| p32b(-v)),
+    ("neg", "m", |p| P32E2::neg(p).to_bits() as u64, |v| p32b(-v)),
 ];
 
-/// every `2^(32-log2n)`-th P32E2 pattern (offset by the seed) through the listed unary operations
+/// Run `differs(i)` for i = off, off + stride, ... < limit on all cores; returns the (sorted, capped) inputs selected.
+pub fn par_sweep<F: Fn(u64) -> bool + Sync>(limit: u64, stride: u64, off: u64, cap: usize, differs: F) -> (u64, Vec<u64>) {
+    let nthreads = std::thread::available_parallelism().map(|n| n.get()).unwrap_or(4).min(16) as u64;
+    let total = if off < limit { (limit - off + stride - 1) / stride } else { 0 };
+    let mut sel: Vec<u64> = Vec::new();
+    std::thread::scope(|sc| {
+        let mut hs = Vec::new();
+        for t in 0..nthreads {
+            let differs = &differs;
+            hs.push(sc.spawn(move || {
+                let mut out = Vec::new();
+                let mut k = t;
+                while k < total {
+                    let i = off + k * stride;
+                    let d = std::panic::catch_unwind(std::panic::AssertUnwindSafe(|| differs(i))).unwrap_or(true);
+                    if d && out.len() < cap {
+                        out.push(i);
+                    }
+                    if k % 4096 == 0 {
+                        crate::guard::PROGRESS.fetch_add(1, std::sync::atomic::Ordering::Relaxed);
+                    }
+                    k += nthreads;
+                }
+                out
+            }));
+        }
+        for h in hs {
+            sel.extend(h.join().unwrap_or_default());
+        }
+    });
+    sel.sort();
+    sel.truncate(cap);
+    (total, sel)
+}
+
+/// every `2^(32-log2n)`-th P32E2 pattern (offset by the seed; log2n = 32: all of them) through the listed unary operations
 pub fn screen_unary32(ctx: &mut Ctx, ty: &Ty, ops: &[&'static str], log2n: u32) {
     let stride = 1u64 << (32 - log2n);
     let off = ctx.seed.wrapping_mul(0x9E37_79B9_7F4A_7C15) % stride;
     for &(op, sp, imp, rf) in UNARY32.iter().filter(|e| ops.contains(&e.0)) {
-        let mut logged = 0usize;
-        let mut p = off;
-        while p < (1u64 << 32) {
-            let x = [p];
-            if let Some(v) = val32(p as u32) {
-                set_current(op, ty.name, sp, 32, &x);
-                let got = match guarded(|| Some(vec![Val::U(imp(P32E2::from_bits(p as u32)))])) {
-                    Some(Outcome::Ok(r)) => r[0].u(),
-                    _ => u64::MAX,
-                };
-                ctx.sink.screened += 1;
-                let sqrt_neg = op == "sqrt" && v < 0.0;
-                if !sqrt_neg && got != rf(v) && logged < MAX_LOGGED {
-                    logged += 1;
-                    *ctx.sink.per_op.entry(format!("screen-selected:{}.{}", ty.name, op)).or_insert(0) += 1;
-                    ctx.call(ty, op, sp, &x);
+        set_current(op, ty.name, "sweep", 32, &[off, stride]);
+        let (total, sel) = par_sweep(1u64 << 32, stride, off, MAX_LOGGED, |p| match val32(p as u32) {
+            None => false,
+            Some(v) => !(op == "sqrt" && v < 0.0) && imp(P32E2::from_bits(p as u32)) != rf(v),
+        });
+        ctx.sink.screened += total;
+        for p in sel {
+            *ctx.sink.per_op.entry(format!("screen-selected:{}.{}", ty.name, op)).or_insert(0) += 1;
+            ctx.call(ty, op, sp, &[p]);
+        }
+    }
+}
+
+/// P16E1 operand pairs: a seeded coset of all 2^32 pairs (log2n = 32: every pair) through + - * / against the f64
+/// route (exact for 13-bit significands: one rounding)
+pub fn screen_p16_pairs(ctx: &mut Ctx, ty: &Ty, log2n: u32) {
+    let stride = 1u64 << (32 - log2n);
+    let off = ctx.seed.wrapping_mul(0xA24B_AED4_963E_E407) % stride;
+    type Op16 = fn(P16E1, P16E1) -> P16E1;
+    let ops: [(&'static str, Op16, fn(f64, f64) -> f64); 4] =
+        [("add", |a, b| P16E1::add(a, b), |a, b| a + b), ("sub", |a, b| P16E1::sub(a, b), |a, b| a - b), ("mul", |a, b| P16E1::mul(a, b), |a, b| a * b), ("div", |a, b| P16E1::div(a, b), |a, b| a / b)];
+    // (the const-method spellings: the operator forwarders carry the cfg(softposit_verif) hook, whose mutex would serialise the threads)
+    let val16 = |p: u16| -> Option<f64> {
+        if p == 0 { Some(0.0) } else if p == 0x8000 { None } else { Some(gen::to_f64_exact(16, 1, p as u64)) }
+    };
+    for (op, imp, rf) in ops {
+        set_current(op, ty.name, "sweep", 16, &[off, stride]);
+        let (total, sel) = par_sweep(1u64 << 32, stride, off, MAX_LOGGED, |w| {
+            let (a, b) = ((w >> 16) as u16, w as u16);
+            match (val16(a), val16(b)) {
+                (Some(x), Some(y)) => {
+                    let want = rf(x, y);
+                    let wb = if want.is_nan() { 0x8000 } else { P16E1::from_f64(want).to_bits() };
+                    imp(P16E1::from_bits(a), P16E1::from_bits(b)).to_bits() != wb
                 }
+                _ => false,
             }
-            p += stride;
+        });
+        ctx.sink.screened += total;
+        for w in sel {
+            *ctx.sink.per_op.entry(format!("screen-selected:{}.{}", ty.name, op)).or_insert(0) += 1;
+            ctx.call(ty, op, "m", &[w >> 16, w & 0xffff]);
         }
     }
 }
@@ -250,32 +308,27 @@ pub fn screen_from32(ctx: &mut Ctx, tys: &[&'static Ty], ops: &[&'static str], l
     let off = ctx.seed.wrapping_mul(0xD1B5_4A32_D192_ED03) % stride;
     for ty in tys {
         for &op in ops {
-            let mut logged = 0usize;
-            let mut w = off;
-            while w < (1u64 << 32) {
+            set_current(op, ty.name, "sweep", ty.n, &[off, stride]);
+            let exec = ty.exec;
+            let run = move |o: &str, x: u64| -> u64 {
+                match std::panic::catch_unwind(|| exec(o, "m", &[x])) {
+                    Ok(Some(v)) => v[0].u(),
+                    Ok(None) => u64::MAX - 3,
+                    Err(_) => u64::MAX,
+                }
+            };
+            let (total, sel) = par_sweep(1u64 << 32, stride, off, MAX_LOGGED, |w| {
                 let wide: f64 = match op {
                     "from_f32" => f32::from_bits(w as u32) as f64,
                     "from_i32" => (w as u32 as i32) as f64,
                     _ => (w as u32) as f64,
                 };
-                let x = [w];
-                set_current(op, ty.name, "m", ty.n, &x);
-                let got = match guarded(|| (ty.exec)(op, "m", &x)) {
-                    Some(Outcome::Ok(v)) => v[0].u(),
-                    Some(Outcome::Panic { .. }) => u64::MAX,
-                    None => break,
-                };
-                let via = match guarded(|| (ty.exec)("from_f64", "m", &[wide.to_bits()])) {
-                    Some(Outcome::Ok(v)) => v[0].u(),
-                    _ => u64::MAX - 1,
-                };
-                ctx.sink.screened += 1;
-                if got != via && logged < MAX_LOGGED {
-                    logged += 1;
-                    *ctx.sink.per_op.entry(format!("screen-selected:{}.{}", ty.name, op)).or_insert(0) += 1;
-                    ctx.call(ty, op, "m", &x);
-                }
-                w += stride;
+                run(op, w) != run("from_f64", wide.to_bits())
+            });
+            ctx.sink.screened += total;
+            for w in sel {
+                *ctx.sink.per_op.entry(format!("screen-selected:{}.{}", ty.name, op)).or_insert(0) += 1;
+                ctx.call(ty, op, "m", &[w]);
             }
         }
     }
